@@ -58,8 +58,10 @@ def run(ctx):
             n = min(n, 2)
         order = rng.randint(1, 8)
         dim = rng.randint(1, 5)
-        x = np.array([rng.uniform(-3, 3) if rng.random() < 0.8 else rng.choice([0.5, 1.0, 100.0, 1e-3]) for _ in range(dim)])
-        x = np.where(x == 0, 0.5, x)
+        # coordinates of every magnitude, exact zeros and tiny values included (a displacement that is not exactly the documented
+        # one survives rounding only where |x| is small next to the step)
+        x = np.array([rng.uniform(-3, 3) if rng.random() < 0.7 else rng.choice([0.5, 1.0, 100.0, 1e-3, 0.0, 0.0, 1e-9, -1e-6])
+                      for _ in range(dim)])
         stepkind = rng.choice(['default', 'default', 'min', 'max', 'scalar'])
         cases.append((cls, m, n, order, x, stepkind))
     lines, metas = [], []
